@@ -50,12 +50,13 @@ LEVEL_TEXT = ('kernel (weak). Kernel-checked for ALL migration functions, tdsets
               'order, each on its predecessor\'s tdset, returns their actions followed by the version update, and '
               'adds no failure of its own; actions naming only _grist_ tables (more generally: not naming table u) '
               'leave user tables (table u) untouched; the schema after applying actions is determined by the '
-              'Add/Remove/Rename/Modify Column|Table subsequence. For the six JSON-reading sites (raise-only model): '
-              'C25_json_sites_refuted (valid JSON of another shape raises, at every site) and '
-              'C25_json_sites_total_on_expected_shapes (no raise on the shape the migration expects). NOT proved: that the 46 real migration bodies never '
+              'Add/Remove/Rename/Modify Column|Table subsequence. For the six JSON-reading sites (raise-only model of '
+              'the guarded source, fix 5a4118c): C25_json_sites_total - no valid JSON of any shape makes a site '
+              'raise; the pre-repair witnesses are regression Examples. NOT proved: that the 46 real migration bodies never '
               'raise and reach schema_create_actions() on all type-correct metadata (C25_full_statement stays a '
               'Definition) - this is covered only by the differential link and the search on generated documents of '
-              'every version, which does find documents on which they raise (known findings).')
+              'every version (it found eight defects: seven repaired in /repo, their witnesses stay in the search '
+              'corpus; migration 7 on a table named Summary_<T> is still a known finding).')
 LEVEL_NOTE = ('Weak on purpose: the migration bodies are Section variables. Trusted: Coq kernel, the hand-written model '
               '(tied by exact replay each run), json/re and the unmodelled prelude. The search premise adds referential '
               'consistency to type-correct cells; inconsistent documents are a counted robustness stream.')
@@ -1203,6 +1204,11 @@ def search(ctx):
   import logging
   logging.disable(logging.CRITICAL)
   cur = current_version()
+  # regression corpus first: the witnesses of every finding ever registered for this property (fixed ones too)
+  for k in core.load_known():
+    if k.get('property') == ID and isinstance(k.get('witness'), dict):
+      w = k['witness']
+      check_doc(ctx, doc_of(w), w.get('metadata_only', False), 'regression-corpus')
   per = ctx.n(3, 60)
   for doc in doc_stream(ctx, per, 'expected'):
     check_doc(ctx, doc, ctx.rng.random() < 0.3, 'expected')
